@@ -10,10 +10,11 @@
      Cover C t k r  every directory of t in scope has a kernel watch kw (watch_of_ino) with
                     _path_for_wd[kw] = its path and _wd_for_path[its path] = kw          (the C02 invariant)
      WInv C t k r   distinct live wds/inodes, no stale kernel watch, no stale _wd_for_path key, cookies fresh
-     RSync C w k r  wf_fs w, the root is a directory, WInv, Cover, kernel queue empty
+     RSync C w k r  wf_fs w, the root is a directory, WInv, Cover, kernel queue empty, no move-out candidate pending
+                    (pend r = None)
      mask_ok C      the event mask contains IN_CREATE, IN_MOVED_FROM, IN_MOVED_TO (WATCHDOG_ALL does) *)
 Require Import WD.Base.Prelude WD.Base.BStr WD.Model.SubEvents WD.Model.Emitter WD.Model.Fs WD.Model.Reader
-               WD.Model.Pipeline WD.Proofs.CoverProofs WD.Proofs.ReplayPipeProofs.
+               WD.Model.Pipeline WD.Proofs.CoverProofs WD.Proofs.CoverOutProofs WD.Proofs.ReplayPipeProofs.
 
 (* ---- 1. well-formed file systems are closed under every applicable operation on normal paths *)
 Theorem C02_wf_preserved : forall w o w', wf_fs w -> op_np o -> apply_op w o = Some w' -> wf_fs w'.
@@ -30,7 +31,7 @@ Print Assumptions C02_walk_dirs.
 (* ---- 2a. Inotify.__init__ establishes the invariant: recursive - every directory below the root; non-recursive - the root *)
 Theorem C02_construct_cover : forall C, c_faults C = [] -> forall w, wf_fs w -> fisdir (c_root C) (w_fs w) = true ->
   exists r k, construct C kinit (w_fs w) = Some (r, k) /\ WInv C (w_fs w) k r /\ Cover C (w_fs w) k r /\
-              k_queue k = [] /\ mvf r = [].
+              k_queue k = [] /\ mvf r = [] /\ pend r = None.
 Proof. exact construct_cover. Qed.
 Print Assumptions C02_construct_cover.
 
@@ -110,9 +111,10 @@ Theorem C02_step_rename_dir_in : forall C, c_faults C = [] -> forall w k r p q w
 Proof. exact step_rename_dir_in. Qed.
 Print Assumptions C02_step_rename_dir_in.
 
-(* Rename of a directory out of the tree: everything under the root is still covered.  The kernel watches of the
-   departed directories and their entries in both maps stay behind - known finding F10 - so the conclusion is Cover,
-   not RSync, and the sequential theorem stops here. *)
+(* Rename of a directory out of the tree: everything under the root is still covered; the departed sub-tree's watches
+   and map entries are still there and the move-out candidate is set (pend = Some (cookie, old path)): the next record
+   the reader processes forgets them (repair of F10; C02_out_pending / C02_pending_step below).  Pinned code
+   (c_fix_moveout = false): pend stays None and they stay behind for ever. *)
 Theorem C02_step_rename_dir_out : forall C w k r p q w' ep, RSync C w k r -> npath p -> npath q -> c_recursive C = true ->
   N.land IN_MOVED_FROM (c_mask C) <> 0%N -> N.land IN_MOVED_TO (c_mask C) <> 0%N ->
   apply_op w (Rename p q) = Some w' -> flookup p (w_fs w) = Some ep -> f_dir ep = true ->
@@ -120,7 +122,10 @@ Theorem C02_step_rename_dir_out : forall C w k r p q w' ep, RSync C w k r -> npa
   let k1 := kernel_op k (w_fs w) (Rename p q) in
   exists r' k' evs, read_batch C (w_fs w') (r, drainq k1, []) (k_queue k1) = Done (r', k', evs) /\
     wf_fs w' /\ isdir_in (c_root C) (w_fs w') /\ Cover C (w_fs w') k' r' /\ k_queue k' = [] /\
-    wfp r' = wfp r /\ pfw r' = pfw r /\ k_watches k' = k_watches k.
+    wfp r' = wfp r /\ pfw r' = pfw r /\ k_watches k' = k_watches k /\
+    pend r' = (if c_fix_moveout C then Some (k_next_cookie k, p) else None) /\
+    mvf r' = aset N.eqb (k_next_cookie k) p (mvf r) /\ k_next_wd k' = k_next_wd k /\
+    k_next_cookie k' = (k_next_cookie k + 1)%N /\ Forall (rsafe C) evs.
 Proof. exact step_rename_dir_out. Qed.
 Print Assumptions C02_step_rename_dir_out.
 
@@ -180,36 +185,138 @@ Definition C02_cover_sequential_full : Prop :=
    Rename of a directory inside the tree to a fresh name (recursive watch) / into the tree from outside to a fresh name
    (recursive watch, repaired code) / under a non-recursive watch / entirely outside the tree.
    / over an empty directory of the tree.
-   NOT covered (kept in the full statement only): a directory moved out of the tree (Cover survives, WInv does not -
-   finding F10), a directory moved in from outside over an empty directory of the tree, operations on the root itself. *)
-Theorem C02_cover_sequential_partial : forall C, c_faults C = [] -> forall ops, mask_ok C -> forall w k r,
+   This is the version from a synchronised state without directory move-outs (weaker mask hypothesis); histories with
+   move-outs: C02_cover_sequential_partial below.
+   NOT covered: a directory moved in from outside over an empty directory of the tree, operations on the root itself. *)
+Theorem C02_cover_sequential_synced_partial : forall C, c_faults C = [] -> forall ops, mask_ok C -> forall w k r,
   RSync C w k r -> ops_covered C w ops ->
   exists w' k' r', rrun C w k r ops = Some (w', k', r') /\ RSync C w' k' r'.
 Proof. exact cover_sequential. Qed.
-Print Assumptions C02_cover_sequential_partial.
+Print Assumptions C02_cover_sequential_synced_partial.
 
-Theorem C02_cover_from_start_partial : forall C, c_faults C = [] -> forall ops w, mask_ok C -> wf_fs w ->
+Theorem C02_cover_from_start_synced_partial : forall C, c_faults C = [] -> forall ops w, mask_ok C -> wf_fs w ->
   fisdir (c_root C) (w_fs w) = true -> ops_covered C w ops ->
   exists r0 k0 w' k' r', construct C kinit (w_fs w) = Some (r0, k0) /\ rrun C w k0 r0 ops = Some (w', k', r') /\
                          wf_fs w' /\ Cover C (w_fs w') k' r'.
 Proof. exact cover_from_start. Qed.
-Print Assumptions C02_cover_from_start_partial.
+Print Assumptions C02_cover_from_start_synced_partial.
 
 (* the same on the Pipeline model, through DelayQueue and Grouping: one block  AOp o; ARead (whole queue); ATick delay;
    AEmit x nit  per applicable operation; after every block the pipeline is synchronised and idle again (PSync) *)
-Theorem C02_cover_sequential_pipeline_partial : forall P, let C := pc_reader P in
+Theorem C02_cover_sequential_pipeline_synced_partial : forall P, let C := pc_reader P in
   c_faults C = [] -> mask_ok C -> pc_filter P = None ->
   forall ops s, PSync P s -> ops_covered C (p_world s) ops ->
   exists h s' obs, block_hist P s ops h /\ prun P s h [] = Done (s', obs) /\ PSync P s' /\
     Cover C (w_fs (p_world s')) (p_k s') (p_r s').
 Proof. exact blocks_cover. Qed.
-Print Assumptions C02_cover_sequential_pipeline_partial.
+Print Assumptions C02_cover_sequential_pipeline_synced_partial.
 
 (* the state right after Inotify.__init__ is such a state *)
 Theorem C02_pinit_sync : forall P w s0, c_faults (pc_reader P) = [] -> wf_fs w ->
   fisdir (c_root (pc_reader P)) (w_fs w) = true -> pinit P w = Some s0 -> PSync P s0 /\ p_world s0 = w /\ p_out s0 = [].
 Proof. exact pinit_sync. Qed.
 Print Assumptions C02_pinit_sync.
+
+(* ================================================================== past directory move-outs (the repair of F10) *)
+(* Vocabulary (Proofs/CoverOutProofs.v), current code only (c_fix_moveout = true):
+     JSync C w k r       RSync up to junk: the kernel queue may hold IN_IGNORED records of descriptors the reader has
+                         forgotten (unknown to _path_for_wd, no live watch) - they are skipped when read
+     POut C w k r h c p  right after a directory left the tree: pend r = Some (c, p), kernel queue empty, Cover holds, the
+                         departed sub-tree's watches and map entries are still there (they sit on directories at/below h),
+                         and forgetting them (forget_tree) yields a synchronised state
+     GS C w k r hot      hot = None: JSync; hot = Some h: POut for some (c, p)
+     step_ok C w hot o   hot = None: covered_op or a directory of the tree moved out (covered_x);
+                         hot = Some h: covered_op, acting in a directory of the tree (watched_parent - so it produces
+                         a record) and notifying no directory at or below h
+     hot_next            Some q after a directory move-out to q from a settled state, None otherwise *)
+
+(* every covered step works from a state that is synchronised up to junk, and ends synchronised *)
+Theorem C02_step_junk : forall C, c_faults C = [] -> c_fix_moveout C = true -> forall w k r o w', mask_ok C ->
+  JSync C w k r -> covered_op C w o -> apply_op w o = Some w' ->
+  let k1 := kernel_op k (w_fs w) o in
+  exists r' k' evs, read_batch C (w_fs w') (r, drainq k1, []) (k_queue k1) = Done (r', k', evs) /\ RSync C w' k' r' /\
+    Forall (rsafe C) evs.
+Proof. exact cover_step_junk. Qed.
+Print Assumptions C02_step_junk.
+
+(* a directory of the tree moved out: the candidate is pending *)
+Theorem C02_out_pending : forall C, c_fix_moveout C = true -> forall w k r p q w' ep,
+  RSync C w k r -> npath p -> npath q -> c_recursive C = true ->
+  N.land IN_MOVED_FROM (c_mask C) <> 0%N -> N.land IN_MOVED_TO (c_mask C) <> 0%N ->
+  apply_op w (Rename p q) = Some w' -> flookup p (w_fs w) = Some ep -> f_dir ep = true ->
+  scope C p -> p <> c_root C -> ~ scope C q ->
+  let k1 := kernel_op k (w_fs w) (Rename p q) in
+  exists r' k' evs, read_batch C (w_fs w') (r, drainq k1, []) (k_queue k1) = Done (r', k', evs) /\
+    POut C w' k' r' q (k_next_cookie k) p /\ Forall (rsafe C) evs.
+Proof. exact out_pout. Qed.
+Print Assumptions C02_out_pending.
+
+(* the next operation's first record forgets the departed sub-tree: synchronised again (up to the IN_IGNORED records
+   the kernel queued for the forgotten descriptors), with exactly the events of the state in which the sub-tree was
+   already forgotten *)
+Theorem C02_pending_step : forall C, c_faults C = [] -> c_fix_moveout C = true -> forall w k r h c p o w', mask_ok C ->
+  POut C w k r h c p -> covered_op C w o -> (forall d, In d (notified o) -> blw h d = false) -> apply_op w o = Some w' ->
+  let k1 := kernel_op k (w_fs w) o in k_queue k1 <> [] ->
+  exists r' k' evs, read_batch C (w_fs w') (r, drainq k1, []) (k_queue k1) = Done (r', k', evs) /\
+    JSync C w' k' r' /\ Forall (rsafe C) evs /\
+    exists kc rc k2, RSync C w kc rc /\
+      read_batch C (w_fs w') (rc, drainq (kernel_op kc (w_fs w) o), []) (k_queue (kernel_op kc (w_fs w) o)) = Done (r', k2, evs).
+Proof. exact pout_step. Qed.
+Print Assumptions C02_pending_step.
+
+(* an operation acting in a directory of the tree produces a record (full mask) *)
+Theorem C02_record_produced : forall C w k r o, c_mask C = WATCHDOG_ALL -> wf_fs w -> Cover C (w_fs w) k r ->
+  (forall kw, In kw (k_watches k) -> kw_mask kw = c_mask C) -> watched_parent C w o ->
+  k_queue (kernel_op k (w_fs w) o) <> [].
+Proof. exact record_produced. Qed.
+Print Assumptions C02_record_produced.
+
+(* ---- 2c past move-outs: histories of any length, every operation followed by a read of the whole queue; a directory
+   move-out may be followed by anything in step_ok (re-creating the old name, moving the directory back in, renaming
+   a former ancestor, ...).  Extra hypotheses w.r.t. C02_cover_sequential_full: the operation kinds of covered_op /
+   move-out; the full event mask; the operation right after a move-out acts in a directory of the tree and not inside
+   the departed directory. *)
+Theorem C02_cover_sequential_partial : forall C, c_faults C = [] -> c_fix_moveout C = true -> c_mask C = WATCHDOG_ALL ->
+  forall ops w k r hot, GS C w k r hot -> ops_x C w hot ops ->
+  exists w' k' r' hot', rrun C w k r ops = Some (w', k', r') /\ GS C w' k' r' hot'.
+Proof. exact cover_sequential_x. Qed.
+Print Assumptions C02_cover_sequential_partial.
+
+Theorem C02_cover_from_start_partial : forall C, c_faults C = [] -> c_fix_moveout C = true -> forall ops w,
+  c_mask C = WATCHDOG_ALL -> wf_fs w -> fisdir (c_root C) (w_fs w) = true -> ops_x C w None ops ->
+  exists r0 k0 w' k' r', construct C kinit (w_fs w) = Some (r0, k0) /\ rrun C w k0 r0 ops = Some (w', k', r') /\
+                         wf_fs w' /\ Cover C (w_fs w') k' r'.
+Proof. exact cover_from_start_x. Qed.
+Print Assumptions C02_cover_from_start_partial.
+
+(* on the Pipeline model: one block AOp o; ARead (whole queue); ATick delay; AEmit x nit per applicable operation *)
+Theorem C02_cover_sequential_pipeline_partial : forall P, let C := pc_reader P in
+  c_faults C = [] -> c_fix_moveout C = true -> c_mask C = WATCHDOG_ALL -> pc_filter P = None ->
+  forall ops s hot, PSx P s hot -> ops_x C (p_world s) hot ops ->
+  exists h s' obs hot', block_hist_x P s ops h /\ prun P s h [] = Done (s', obs) /\ PSx P s' hot' /\
+    Cover C (w_fs (p_world s')) (p_k s') (p_r s').
+Proof. exact blocks_cover_x. Qed.
+Print Assumptions C02_cover_sequential_pipeline_partial.
+
+Theorem C02_pinit_psx : forall P w s0, c_faults (pc_reader P) = [] -> c_fix_moveout (pc_reader P) = true -> wf_fs w ->
+  fisdir (c_root (pc_reader P)) (w_fs w) = true -> pinit P w = Some s0 -> PSx P s0 None /\ p_world s0 = w /\ p_out s0 = [].
+Proof. exact pinit_psx. Qed.
+Print Assumptions C02_pinit_psx.
+
+(* the pinned code (c_fix_moveout = false) on the F10d history  mkdir R/b; mkdir R/b/b; mv R/b/b O/x; mv O/x R/n;
+   mv R/b R/m; touch R/n/f : R/n is not covered at the end (its descriptor was re-keyed through the stale entry) *)
+Theorem C02_f10d_pinned_refuted :
+  exists w' k' r', run_ops (cfgo false) f10d_ops = Some (w', k', r') /\ k_queue k' = [] /\ ~ Cover (cfgo false) (w_fs w') k' r'.
+Proof. exact f10d_pinned_refuted. Qed.
+Print Assumptions C02_f10d_pinned_refuted.
+
+(* pinned code, F10b history  mkdir R/b; mv R/b O/x; mkdir R/b; mv R/b R/a : the departed directory keeps its kernel
+   watch for ever (3 watches for the 2 directories of the tree) *)
+Theorem C02_f10b_pinned_stale :
+  exists w' k' r', run_ops (cfgo false) f10b_ops = Some (w', k', r') /\ length (k_watches k') = 3%nat /\
+    length (filter (fun e => f_dir e && scopeb (cfgo false) (f_path e)) (w_fs w')) = 2%nat.
+Proof. exact f10b_pinned_stale. Qed.
+Print Assumptions C02_f10b_pinned_stale.
 
 (* ---- 2d. the probe: from a synchronised state, creating a fresh file [name] in ANY directory in scope makes the reader
    produce, first, a raw IN_CREATE event whose src_path is the real path d/name; the emitter turns it into
@@ -335,4 +442,63 @@ Proof.
   { eapply co_rename_dir_over; try (now apply Na); try reflexivity; try (vm_compute; reflexivity);
       try (right; vm_compute; reflexivity); try (vm_compute; discriminate). }
   exact I.
+Qed.
+
+(* ---- the F10 histories on the repaired model *)
+Example C02_f10d_repaired :
+  exists w' k' r', run_ops (cfgo true) f10d_ops = Some (w', k', r') /\ k_queue k' = [] /\ pend r' = None /\
+    Cover (cfgo true) (w_fs w') k' r' /\ length (k_watches k') = 3%nat.
+Proof. exact f10d_repaired. Qed.
+
+Example C02_f10b_repaired :
+  exists w' k' r', run_ops (cfgo true) f10b_ops = Some (w', k', r') /\ length (k_watches k') = 2%nat /\
+    Cover (cfgo true) (w_fs w') k' r' /\ k_queue k' = [] /\ pend r' = None.
+Proof. exact f10b_repaired. Qed.
+
+(* they satisfy the hypothesis of C02_cover_from_start_partial *)
+Example C02_f10_ops_x_nonvacuous : ops_x (cfgo true) w0 None f10b_ops /\ ops_x (cfgo true) w0 None f10d_ops.
+Proof.
+  assert (GR : gpath pR) by (split; [discriminate | reflexivity]).
+  assert (GO : gpath pO) by (split; [discriminate | reflexivity]).
+  assert (Na : forall n, valid_name [n] = true -> npath (sub pR n)) by (intros; now apply npath_sub).
+  assert (No : forall n, valid_name [n] = true -> npath (sub pO n)) by (intros; now apply npath_sub).
+  assert (Nb : forall m n, valid_name [m] = true -> valid_name [n] = true -> npath (sub (sub pR m) n)).
+  { intros. apply npath_sub; [apply npath_gpath; now apply Na | assumption]. }
+  assert (NS : forall p, ~ scope (cfgo true) (sub pO p)) by (intros p [H|H]; vm_compute in H; discriminate).
+  split.
+  - unfold f10b_ops.
+    eapply ops_x_cons; [vm_compute; reflexivity | apply cx_op, co_mkdir; now apply Na |].
+    eapply ops_x_cons; [vm_compute; reflexivity | |].
+    { eapply cx_out; try (now apply Na); try (now apply No); try reflexivity; try (vm_compute; reflexivity);
+        try (right; vm_compute; reflexivity); try (vm_compute; discriminate). apply NS. }
+    vm_compute hot_next.
+    eapply ops_x_cons; [vm_compute; reflexivity | |].
+    { split; [apply co_mkdir; now apply Na|]. split.
+      - exists pR. split; [now left|]. split; [now left | reflexivity].
+      - intros d [<-|[]]. vm_compute. reflexivity. }
+    vm_compute hot_next.
+    eapply ops_x_cons; [vm_compute; reflexivity | |].
+    { apply cx_op. eapply co_rename_dir; try (now apply Na); try reflexivity; try (vm_compute; reflexivity);
+        try (right; vm_compute; reflexivity); try (vm_compute; discriminate). }
+    exact I.
+  - unfold f10d_ops.
+    eapply ops_x_cons; [vm_compute; reflexivity | apply cx_op, co_mkdir; now apply Na |].
+    eapply ops_x_cons; [vm_compute; reflexivity | apply cx_op, co_mkdir; now apply Nb |].
+    eapply ops_x_cons; [vm_compute; reflexivity | |].
+    { eapply cx_out; try (now apply Nb); try (now apply No); try reflexivity; try (vm_compute; reflexivity);
+        try (right; vm_compute; reflexivity); try (vm_compute; discriminate). apply NS. }
+    vm_compute hot_next.
+    eapply ops_x_cons; [vm_compute; reflexivity | |].
+    { split; [|split].
+      - eapply co_rename_dir_in; try (now apply Na); try (now apply No); try reflexivity; try (vm_compute; reflexivity);
+          try (right; vm_compute; reflexivity). apply NS.
+      - exists pR. split; [right; now left|]. split; [now left | reflexivity].
+      - intros d [<-|[<-|[<-|[]]]]; vm_compute; reflexivity. }
+    vm_compute hot_next.
+    eapply ops_x_cons; [vm_compute; reflexivity | |].
+    { apply cx_op. eapply co_rename_dir; try (now apply Na); try reflexivity; try (vm_compute; reflexivity);
+        try (right; vm_compute; reflexivity); try (vm_compute; discriminate). }
+    eapply ops_x_cons; [vm_compute; reflexivity | |].
+    { apply cx_op. apply co_quiet; [exact I | now apply Nb]. }
+    exact I.
 Qed.
